@@ -71,7 +71,34 @@ def permute(rng, doc: dict) -> dict:
         return x
 
     d["paths"] = {p: walk(item) for p, item in d["paths"].items()}
+    # ... and the keyword order inside every schema object of components (what yaml.safe_dump / json.dumps(sort_keys=True) change)
+    d["components"]["schemas"] = {n: walk(sch) for n, sch in d["components"]["schemas"].items()}
     return d
+
+
+def add_mixed_keyword_schemas(rng, doc: dict) -> None:
+    """Schemas WITHOUT a `type` keyword that carry two kinds of structural keyword (properties next to oneOf / anyOf / allOf /
+    enum): legal, and which keyword comes first in the text must not decide what they become."""
+    sch = doc.setdefault("components", {}).setdefault("schemas", {})
+    ref = lambda n: {"$ref": f"#/components/schemas/{n}"}  # noqa
+    sch["MixLeafA"] = {"type": "object", "required": ["ka"], "properties": {"ka": {"type": "string"}}}
+    sch["MixLeafB"] = {"type": "object", "required": ["kb"], "properties": {"kb": {"type": "integer"}}}
+    fam = {
+        "MixPropsOneOf": {"properties": {"label": {"type": "string"}, "n": {"type": "integer"}}, "oneOf": [ref("MixLeafA"), ref("MixLeafB")]},
+        "MixPropsAnyOf": {"anyOf": [ref("MixLeafA"), ref("MixLeafB")], "properties": {"label": {"type": "string"}}},
+        "MixPropsAllOf": {"properties": {"extra": {"type": "boolean"}}, "allOf": [ref("MixLeafA")]},
+        "MixEnumProps": {"enum": ["a", "b"], "properties": {"label": {"type": "string"}}},
+        "MixItemsProps": {"items": {"type": "string"}, "properties": {"label": {"type": "string"}}},
+        "MixAddlOneOf": {"additionalProperties": {"type": "integer"}, "oneOf": [ref("MixLeafA"), ref("MixLeafB")]},
+    }
+    names = rng.sample(sorted(fam), rng.randint(2, 4))
+    for k, nm in enumerate(names):
+        node = fam[nm]
+        ks = list(node)
+        rng.shuffle(ks)
+        sch[nm] = {key: node[key] for key in ks}
+        doc.setdefault("paths", {})[f"/opmix{k}/mixed"] = {"get": {"operationId": f"getMixed{k}", "tags": ["mixed"], "responses": {
+            "200": {"description": "ok", "content": {"application/json": {"schema": ref(nm)}}}}}}
 
 
 def normalise(po: dict, pkg: str) -> dict:
@@ -211,6 +238,10 @@ def run_shard(ctx: Ctx) -> None:
     for b in range(total):
         d = specgen.generate(ctx.rng, prof={"ops": (2, 5), "schemas": (3, 6), "p_stream": 0.1, "opid_shapes": True, "p_param": 0.8,
                                             "p_component_refs": 0.4})
+        if b % 2 == 1:
+            add_mixed_keyword_schemas(ctx.rng, d.doc)
+            d.features.add("typeless_schemas_with_two_structural_keywords")
+            ctx.rec.count("documents_with_mixed_keyword_schemas")
         run_doc(ctx, d, ctx.shard * 1000 + b)
     # schema-centred documents (nested containers, nullable anything, named maps / aliases): same invariance
     for b in range(2 if ctx.quick else 30):
